@@ -18,12 +18,9 @@ template <typename Range, typename Index>
     requires(RandomAccessRange<Range>)
 constexpr auto index(Range&& rng, Index&& i) noexcept -> decltype(auto)
 {
-    using etl::begin;
-    using etl::end;
-
     TETL_PRECONDITION(static_cast<etl::ptrdiff_t>(i) >= 0);
-    TETL_PRECONDITION(static_cast<etl::ptrdiff_t>(i) < (end(rng) - begin(rng)));
-    return begin(etl::forward<Range>(rng))[etl::forward<Index>(i)];
+    TETL_PRECONDITION(static_cast<etl::ptrdiff_t>(i) < (etl::end(rng) - etl::begin(rng)));
+    return etl::begin(etl::forward<Range>(rng))[etl::forward<Index>(i)];
 }
 } // namespace etl::detail
 
